@@ -110,6 +110,9 @@ pub enum Strictness {
     Model,
     /// only record observations (used for the wrap-around differential, where the reference is the origin-0 run)
     ObserveOnly,
+    /// as `ObserveOnly`, but whatever is still buffered when the script ends stays there: the channel is torn down with leftovers
+    /// (held items are released first, outstanding reservations are sent); the drop ledger after teardown becomes an observation
+    ObserveOnlyLeftovers,
 }
 
 /// Runs `case` (as one logical thread under a scheduler, so that broken library code stalls instead of hanging)
@@ -120,7 +123,11 @@ pub fn run(case: &SeqCase, strict: Strictness, probe_capacity: bool) -> SeqOutco
     let r = crate::sched::guarded(200_000, move || interpret(&case2, strict, probe_capacity));
     payload::set_current_ledger(None);
     match r {
-        Ok(mut o) => { o.ledger = ledger.all(); o.ledger_corrupt = ledger.corrupt(); o },
+        Ok(mut o) => {
+            o.ledger = ledger.all(); o.ledger_corrupt = ledger.corrupt();
+            if strict == Strictness::ObserveOnlyLeftovers { o.obs.push(format!("[teardown with leftovers] payloads destroyed so far: {} (on garbage: {})", o.ledger.iter().map(|(v, n)| format!("{}x{n}", payload::show(*v))).collect::<Vec<_>>().join(" "), o.ledger_corrupt)); }
+            o
+        },
         Err(end) => SeqOutcome { obs: vec![format!("ABNORMAL END: {:?}", match &end { EndState::Stall { .. } => "stall".to_string(), EndState::Budget => "budget".into(), EndState::Blocked { .. } => "blocked".into(), EndState::Panicked { msg, .. } => format!("panic: {msg}"), EndState::Completed => "?".into() })],
                                  violation: None, skipped: 0, rejected: 0, reserved_sent: 0, reserved_cancelled: 0, laps: 0, recycled_after_leftovers: false, ledger: vec![], ledger_corrupt: 0, accepted_vals: vec![], delivered_vals: vec![], end },
     }
@@ -164,6 +171,7 @@ fn interpret(case: &SeqCase, strict: Strictness, probe_capacity: bool) -> SeqOut
     let mut dropped_with_leftovers_ids: Vec<u32> = vec![];
     let mut recycled_after_leftovers = false;
     let waker = noop_waker();
+    let with_leftovers = strict == Strictness::ObserveOnlyLeftovers;
     let strict = strict == Strictness::Model;
     macro_rules! mismatch {
         ($i:expr, $what:expr, $exp:expr, $got:expr) => {
@@ -339,6 +347,11 @@ fn interpret(case: &SeqCase, strict: Strictness, probe_capacity: bool) -> SeqOut
             if model.would_wait() { break; }
             model.accept(v); reserved_sent += 1; accepted_vals.push(v);
         }
+    }
+    if with_leftovers {
+        while let Some(it) = held.pop() { let v = model.held.pop().unwrap(); drop(it); model.unref(v); }
+        drop(held); drop(live); drop(chan);
+        return SeqOutcome { obs, violation: None, skipped, rejected, reserved_sent, reserved_cancelled, laps, recycled_after_leftovers, ledger: vec![], ledger_corrupt: 0, accepted_vals, delivered_vals, end: EndState::Completed };
     }
     if violation.is_none() {
         if kind.is_uni() && live.is_empty() && !model.uni.is_empty() {
@@ -643,8 +656,10 @@ impl Property for C15Channels {
         let k = case.kind.short();
         let mut base = case.clone();
         base.origin = 0;
-        let reference = run(&base, Strictness::ObserveOnly, false);
-        let shifted = run(case, Strictness::ObserveOnly, false);
+        // even-numbered origins: the script is completed (everything consumed); odd ones: the channel is torn down with whatever is still buffered
+        let mode = if case.origin % 2 == 0 { Strictness::ObserveOnly } else { Strictness::ObserveOnlyLeftovers };
+        let reference = run(&base, mode, false);
+        let shifted = run(case, mode, false);
         let mut extra = None;
         if let Some((i, x, y)) = diff_obs(&reference, &shifted) {
             let what = if y.starts_with("ABNORMAL END") { if y.contains("panic") { "panic" } else { "stall" } } else { "different-answer" };
@@ -658,6 +673,7 @@ impl Property for C15Channels {
         o.violation = None;
         let mut classes = vec![];
         if crossed { classes.push("counter-crossed-2^32".into()); }
+        if case.origin % 2 == 1 { classes.push("teardown-with-leftovers".into()); }
         if std::env::var("RMV_BUILD").map(|b| b == "checked").unwrap_or(false) { classes.push("build:overflow-checks-on".into()); } else { classes.push("build:release".into()); }
         base_report(case, o, crossed, classes, extra)
     }
